@@ -207,6 +207,35 @@ def h_expand(sx):
 OPS = ["add_row:0", "add_row:1", "add_column:0", "add_column:1", "clear:0", "clear:1", "remove_column:0", "access", "none"]
 
 
+TAG_TEXT = u'''Feature: F
+  @browser=<browser-name> @v.<ver/x> @plain
+  Scenario Outline: T <browser-name>
+    Given a step
+    Examples:
+      | browser-name | ver/x |
+      | %s | %s |
+      | chrome | 2 |
+'''
+
+
+def h_tag_columns(sx):
+    """Outline tags whose placeholder names are not identifier-like (dash, slash): replaced by the row's cell all the same."""
+    from behave.parser import parse_feature
+    pool = [u"firefox", u"a.b", u"7", u"edge-dev"]
+    c1 = sx.choice("cell1", pool)
+    c1 = c1 if isinstance(c1, str) else c1.concretize()
+    c2 = sx.choice("cell2", [u"1", u"x.y", u"beta"])
+    c2 = c2 if isinstance(c2, str) else c2.concretize()
+    f = parse_feature(TAG_TEXT % (c1, c2), filename="t.feature")
+    rows = f.run_items[0].scenarios
+    got = [[str(t) for t in sc.tags] for sc in rows]
+    exp = [[u"browser=%s" % c1, u"v.%s" % c2, u"plain"], [u"browser=chrome", u"v.2", u"plain"]]
+    sx.check(got == exp, "C06.tags=outline+examples", detail={"cells": [c1, c2], "got": got, "expected": exp})
+    sx.check([sc.name.split(" -- ")[0] for sc in rows] == [u"T %s" % c1, u"T chrome"], "C06.name-substituted",
+             detail={"cells": [c1, c2], "names": [sc.name for sc in rows]})
+    return got
+
+
 def h_history(sx):
     """After the examples tables are modified through the table API the expansion is rebuilt."""
     f, outline = _parse()
@@ -260,6 +289,8 @@ def jobs(tier, seed):
     js.append(Job("expand.plain-names", "props.c06:h_expand", {"block": 0, "row": 1, "schema": 0, "variant": "plain-names"},
                   reach=["C06.doc-string-substituted", "C06.step-table-substituted", "C06.template-unchanged"],
                   min_paths=1, cost=100, validate=40, closure=False))
+    js.append(Job("tag-columns", "props.c06:h_tag_columns", {}, reach=["C06.tags=outline+examples"], min_paths=4, cost=10,
+                  validate="all", closure=False))
     js.append(Job("history", "props.c06:h_history", {"n": 2 if tier == "quick" else 3},
                   reach=["C06.rebuilt-after-table-change(names)"], min_paths=20, cost=200, validate=60, closure=False))
     return js
